@@ -13,6 +13,7 @@ package main
 import (
 	"archive/tar"
 	"bytes"
+	"context"
 	"crypto/sha1"
 	"crypto/sha256"
 	"encoding/base64"
@@ -163,7 +164,20 @@ type gluesigApkCfg struct {
 	Ignore bool       `json:"ignore,omitempty"`
 	NoSig  []string   `json:"nosig,omitempty"` // repository names (or near misses) below the scenario's root / host
 	Repos  []int      `json:"repos"`
+	// what the root file system already holds besides the configured keyring: key files in key-like places that are
+	// NOT the keys directory (package content of an earlier installation, a base root, a reused working directory)
+	Root []gluesigRootKey `json:"root,omitempty"`
 }
+
+// a public key file somewhere in the root file system; Dir may contain <arch>
+type gluesigRootKey struct {
+	Dir string   `json:"dir"`
+	Key isKeyCfg `json:"key"`
+}
+
+// key-like places of a root file system that are not the keys directory etc/apk/keys itself
+var gluesigRootKeyDirs = []string{"usr/share/apk/keys/<arch>", "usr/share/apk/keys/<arch>", "usr/share/apk/keys", "etc/apk/keys.d",
+	"etc/apk/keys/<arch>", "etc/apk/keys/extra", "usr/share/apk/keys/<arch>/old", "lib/apk/keys", "etc/apk/trusted.d", "usr/lib/apk/keys/<arch>", "etc/keys"}
 
 type gluesigRun struct {
 	NewProcess bool   `json:"new_process"`
@@ -178,6 +192,12 @@ type gluesigRun struct {
 	// apk-level operation: one apk.APK per entry, resolved in this order; ByArch wired between all of them when Sibs
 	Apks []gluesigApkCfg `json:"apks,omitempty"`
 	Sibs bool            `json:"sibs,omitempty"`
+	// the operations of this run are started one goroutine each, in listing order: the first one (the leader) runs
+	// until its first download of an index is in flight, the transport holds that download until every other operation
+	// has asked for the same index (HEAD seen, then a short grace period or its own download), then lets everything go
+	Conc bool `json:"conc,omitempty"`
+	// build-level pl1: key files the root file system holds before build.New (same places as gluesigApkCfg.Root)
+	Root []gluesigRootKey `json:"root,omitempty"`
 }
 
 type gluesigCase struct {
@@ -281,7 +301,11 @@ var gluesigBuildOps = []string{"pl1", "plseq", "plseq", "plall", "lock", "build"
 
 // a build-level run over `archs` with the given served revisions
 func (g *gluesigGen) buildRun(op string, archs []string, serve []int, repos []int, keys []isKeyCfg) gluesigRun {
-	return gluesigRun{NewProcess: true, Serve: serve, Op: op, Archs: archs, Keys: keys, Repos: repos}
+	run := gluesigRun{NewProcess: true, Serve: serve, Op: op, Archs: archs, Keys: keys, Repos: repos}
+	if op == "pl1" && len(archs) > 0 && g.r.Chance(30) {
+		run.Root = g.rootKeys(archs[0], serve)
+	}
+	return run
 }
 
 func (gluesigSuite) Gen(r *Rng, i int, tier string) any {
@@ -306,7 +330,7 @@ func (gluesigSuite) Gen(r *Rng, i int, tier string) any {
 		return out
 	}
 	switch shape := r.Intn(100); {
-	case shape < 22:
+	case shape < 19:
 		// (a) sibling: a multi-architecture family in which one architecture's index is bad (or all are good);
 		// every kind of operation, both resolution orders
 		c.Shape = "sibling"
@@ -334,7 +358,7 @@ func (gluesigSuite) Gen(r *Rng, i int, tier string) any {
 			run.NewProcess = k == 0 || r.Chance(70)
 			c.Runs = append(c.Runs, run)
 		}
-	case shape < 44:
+	case shape < 39:
 		// (b) offline after a rejected (or accepted) online run over the same cache directory
 		c.Shape = "offline"
 		c.Repos[0] = gluesigRepo{HTTP: true, Etag: Pick(r, []string{"hash", "hash", "hash", "sticky"})}
@@ -392,7 +416,7 @@ func (gluesigSuite) Gen(r *Rng, i int, tier string) any {
 		if r.Chance(30) { // back online
 			c.Runs = append(c.Runs, g.buildRun(onlineOp(), archs, mk(r.Bool()), repos, keys))
 		}
-	case shape < 62:
+	case shape < 55:
 		// (c) one process, several option sets: verification off then on, one keyring then another
 		c.Shape = "modes"
 		archs := both[:1]
@@ -434,7 +458,7 @@ func (gluesigSuite) Gen(r *Rng, i int, tier string) any {
 			}
 			c.Runs = append(c.Runs, run)
 		}
-	case shape < 76:
+	case shape < 67:
 		// (d) apk level: per-architecture keyrings, switches and exemptions that differ between siblings
 		c.Shape = "apk"
 		repos = []int{0, 1}
@@ -472,7 +496,7 @@ func (gluesigSuite) Gen(r *Rng, i int, tier string) any {
 			run.NewProcess = k == 0 || r.Chance(40)
 			c.Runs = append(c.Runs, run)
 		}
-	case shape < 84:
+	case shape < 74:
 		// (a3) three architectures, one run (with more than one sibling, which sibling is read before a failing one
 		// depends on Go's map order; that shows only in what a *later* run finds in memo and cache directory)
 		c.Shape = "sibling3"
@@ -508,6 +532,71 @@ func (gluesigSuite) Gen(r *Rng, i int, tier string) any {
 			}
 		}
 		c.Runs = append(c.Runs, run)
+	case shape < 88:
+		// (f) concurrent reads of one index in one process under different verification settings: whatever indexCache.get
+		// shares between reads that are in flight at the same time (a per-key sync.Once, an in-flight request table, ...)
+		// must be keyed by the verification mode.  The first operation is the one whose download is held by the
+		// transport until the others have asked for the same index
+		c.Shape = "conc"
+		c.Repos[0] = gluesigRepo{HTTP: true, Etag: Pick(r, []string{"none", "none", "none", "hash", "sticky"})}
+		if r.Chance(8) {
+			c.Repos[0] = gluesigRepo{HTTP: false}
+		}
+		archs := both[:1]
+		if r.Chance(20) {
+			archs = both
+		}
+		var serve []int
+		for _, rp := range repos {
+			for _, a := range archs {
+				serve = append(serve, g.rev(rp, a, Pick(r, []string{"unsigned", "unsigned", "forged", "keyb", "keyb", "unknown", "good", "splice", "tampered"})))
+			}
+		}
+		lenient := func(a *gluesigApkCfg) {
+			switch r.Intn(5) {
+			case 0, 1:
+				a.Ignore = true
+			case 2:
+				a.NoSig = []string{gluesigRepoNames[0]}
+				if len(repos) > 1 {
+					a.NoSig = append(a.NoSig, gluesigRepoNames[1])
+				}
+			case 3:
+				a.Keys = []isKeyCfg{{isKeyNames[1], 1, 0}}
+			default:
+				a.Keys = []isKeyCfg{{isKeyNames[0], 0, 0}, {isKeyNames[1], 1, 0}, {isKeyNames[2], 2, 0}}
+			}
+		}
+		nruns := 1
+		if r.Chance(30) {
+			nruns = 2
+		}
+		for k := 0; k < nruns; k++ {
+			n := 2
+			if r.Chance(30) {
+				n = 3
+			}
+			var as []string
+			for j := 0; j < n; j++ {
+				a := archs[0]
+				if j > 0 && len(archs) > 1 && r.Chance(35) {
+					a = archs[1]
+				}
+				as = append(as, a)
+			}
+			run := g.apkRun(as, serve, repos, gluesigKeyA, r.Chance(30))
+			leaderLenient := r.Chance(70)
+			for j := range run.Apks {
+				if (j == 0) == leaderLenient || r.Chance(15) {
+					lenient(&run.Apks[j])
+				} else if r.Chance(15) {
+					run.Apks[j].Keys = gluesigGenKeys(r)
+				}
+			}
+			run.Conc = k == 0 || r.Chance(60)
+			run.NewProcess = k == 0 || r.Chance(25)
+			c.Runs = append(c.Runs, run)
+		}
 	default:
 		// (e) free mix: the repositories move on between runs, any operation, online / offline
 		c.Shape = "mix"
@@ -593,9 +682,50 @@ func (gluesigSuite) Gen(r *Rng, i int, tier string) any {
 func (g *gluesigGen) apkRun(archs []string, serve []int, repos []int, keys []isKeyCfg, sibs bool) gluesigRun {
 	run := gluesigRun{NewProcess: true, Serve: serve, Op: "apk", Sibs: sibs}
 	for _, a := range archs {
-		run.Apks = append(run.Apks, gluesigApkCfg{Arch: a, Keys: keys, Repos: append([]int{}, repos...)})
+		cfg := gluesigApkCfg{Arch: a, Keys: keys, Repos: append([]int{}, repos...)}
+		if g.r.Chance(30) {
+			cfg.Root = g.rootKeys(a, serve)
+		}
+		run.Apks = append(run.Apks, cfg)
 	}
 	return run
+}
+
+// the root file system already holds one or two public keys in key-like places other than the keys directory; most
+// of the time one of the served indexes of that architecture is (re)signed by exactly the first of them — under the
+// configured keyring alone such an index is acceptable only if the same key is configured too
+func (g *gluesigGen) rootKeys(arch string, serve []int) []gluesigRootKey {
+	r := g.r
+	n := 1
+	if r.Chance(25) {
+		n = 2
+	}
+	var out []gluesigRootKey
+	for i := 0; i < n; i++ {
+		k := Pick(r, []isKeyCfg{{isKeyNames[1], 1, 0}, {isKeyNames[1], 1, 0}, {isKeyNames[2], 2, 0}, {isKeyNames[2], 2, 0}, {isKeyNames[0], 0, 0}, {isKeyNames[0], 2, 0}})
+		out = append(out, gluesigRootKey{Dir: Pick(r, gluesigRootKeyDirs), Key: k})
+	}
+	if r.Chance(75) {
+		sign := "good"
+		switch k := out[0].Key; {
+		case k.Pem == 1:
+			sign = "keyb"
+		case k.Pem == 2 && k.Name == isKeyNames[0]:
+			sign = "forged"
+		case k.Pem == 2:
+			sign = "unknown"
+		}
+		var cand []int
+		for _, id := range serve {
+			if g.c.Revs[id].Arch == arch {
+				cand = append(cand, id)
+			}
+		}
+		if len(cand) > 0 {
+			g.c.Revs[Pick(r, cand)].Sign = sign
+		}
+	}
+	return out
 }
 
 // ---------------------------------------------------------------- archives
@@ -687,9 +817,101 @@ type gluesigRT struct {
 	index map[string][]byte // URL path of an APKINDEX.tar.gz -> body (this run)
 	etag  map[string]string // URL path -> ETag ("" = none)
 	files map[string][]byte // URL path of a package -> body
+	gate  *gluesigGate      // non-nil during a concurrent run
+}
+
+// the operation a request belongs to (context value set by the harness for concurrent runs)
+type gluesigOpKey struct{}
+
+// gluesigGate arranges the interleaving of a concurrent run: the FIRST download of every index by the leader
+// (operation 0) is held until every other operation that is going to read that index has asked for it (its HEAD was
+// answered) and then either sent its own download or let a short grace period pass (a reader that joins something
+// the leader has in flight sends no request of its own).  Everything is bounded by wall-clock caps: on an overloaded
+// machine the interleaving may not happen, the answers stay correct.
+type gluesigGate struct {
+	mu        sync.Mutex
+	expect    map[string]map[int]bool // index path -> operations (other than the leader) expected to read it
+	heads     map[string]map[int]bool // index path -> operations whose HEAD was answered
+	gets      map[string]map[int]bool // index path -> operations that sent a download
+	held      map[string]bool         // index path -> the leader's first download was (is being) held
+	firstHeld chan struct{}           // closed when the leader's first download arrives
+	once      sync.Once
+	joined    int // downloads that were released after every expected reader had asked (interleaving achieved)
+}
+
+func (g *gluesigGate) request(req *http.Request) {
+	op, ok := req.Context().Value(gluesigOpKey{}).(int)
+	if !ok {
+		return
+	}
+	p := req.URL.Path
+	set := func(m map[string]map[int]bool) {
+		if m[p] == nil {
+			m[p] = map[int]bool{}
+		}
+		m[p][op] = true
+	}
+	g.mu.Lock()
+	if req.Method == http.MethodHead {
+		set(g.heads)
+		g.mu.Unlock()
+		return
+	}
+	set(g.gets)
+	if op != 0 || g.held[p] {
+		g.mu.Unlock()
+		return
+	}
+	g.held[p] = true
+	g.mu.Unlock()
+	g.once.Do(func() { close(g.firstHeld) })
+	covered := func(m map[string]map[int]bool) bool {
+		for o := range g.expect[p] {
+			if !m[p][o] {
+				return false
+			}
+		}
+		return true
+	}
+	deadline := time.Now().Add(400 * time.Millisecond)
+	for {
+		g.mu.Lock()
+		ok := covered(g.heads)
+		g.mu.Unlock()
+		if ok || time.Now().After(deadline) {
+			if ok {
+				g.mu.Lock()
+				g.joined++
+				g.mu.Unlock()
+			}
+			break
+		}
+		time.Sleep(200 * time.Microsecond)
+	}
+	grace := time.Now().Add(30 * time.Millisecond)
+	for {
+		g.mu.Lock()
+		ok := covered(g.gets)
+		g.mu.Unlock()
+		if ok || time.Now().After(grace) {
+			return
+		}
+		time.Sleep(200 * time.Microsecond)
+	}
 }
 
 func (t *gluesigRT) RoundTrip(req *http.Request) (*http.Response, error) {
+	t.mu.Lock()
+	gate := t.gate
+	_, isIndex := t.index[req.URL.Path]
+	t.mu.Unlock()
+	if gate != nil && isIndex {
+		if req.Method == http.MethodHead {
+			defer gate.request(req) // counted once the answer is on its way
+		} else {
+			gate.request(req)
+		}
+	}
 	mk := func(code int, b []byte) *http.Response {
 		return &http.Response{StatusCode: code, Status: fmt.Sprintf("%d %s", code, http.StatusText(code)), Proto: "HTTP/1.1", ProtoMajor: 1, ProtoMinor: 1,
 			Header: http.Header{}, Body: io.NopCloser(bytes.NewReader(b)), ContentLength: int64(len(b)), Request: req}
@@ -728,6 +950,16 @@ type gluesigEnv struct {
 	seenIdx  map[string]bool
 	localRev map[string]int    // local index path -> revision currently written (-1 none)
 	localTok map[string]string // local index path -> version token
+	joined   int               // concurrent runs: held downloads released after every expected reader had asked
+}
+
+// key files the root file system holds besides the configured keyring
+func gluesigWriteRoot(fsys apkfs.FullFS, arch string, root []gluesigRootKey) {
+	for _, rk := range root {
+		d := strings.ReplaceAll(rk.Dir, "<arch>", arch)
+		gluesigMust(fsys.MkdirAll(d, 0o755))
+		gluesigMust(fsys.WriteFile(d+"/"+rk.Key.Name, isPem(rk.Key), 0o644))
+	}
 }
 
 func (e *gluesigEnv) repoURL(repo int) string {
@@ -888,6 +1120,7 @@ func (e *gluesigEnv) execRun(k int, run gluesigRun) (apksField, opsField string,
 			for _, kc := range a.Keys {
 				gluesigMust(src.WriteFile("etc/apk/keys/"+kc.Name, isPem(kc), 0o644))
 			}
+			gluesigWriteRoot(src, a.Arch, a.Root)
 			var repos, nosig []string
 			world := []string{}
 			for _, rp := range a.Repos {
@@ -926,17 +1159,85 @@ func (e *gluesigEnv) execRun(k int, run gluesigRun) (apksField, opsField string,
 			sibs = strings.Join(idx, ".")
 		}
 		var ops []string
-		for j, x := range apks {
-			pkgs, _, err := x.ResolveWorld(ctx)
-			o := gluesigOpOut{class: gluesigErrClass(err)}
+		resolve := func(ctx context.Context, j int) (o gluesigOpOut) {
+			pkgs, _, err := apks[j].ResolveWorld(ctx)
+			o = gluesigOpOut{class: gluesigErrClass(err)}
 			if err == nil {
 				o.answers = []string{"0=" + gluesigRecs(pkgs)}
 			} else {
 				o.errs = []string{err.Error()}
 			}
-			outs = append(outs, o)
+			return o
+		}
+		outs = make([]gluesigOpOut, len(apks))
+		for j := range apks {
 			ops = append(ops, fmt.Sprintf("0!%d>%s", j, sibs))
 		}
+		if !run.Conc {
+			for j := range apks {
+				outs[j] = resolve(ctx, j)
+			}
+			return strings.Join(enc, "|"), strings.Join(ops, "|"), outs
+		}
+		// concurrent: which operation (other than the leader) is going to read which remote index
+		gate := &gluesigGate{expect: map[string]map[int]bool{}, heads: map[string]map[int]bool{}, gets: map[string]map[int]bool{},
+			held: map[string]bool{}, firstHeld: make(chan struct{})}
+		for j := 1; j < len(run.Apks); j++ {
+			owners := []int{j}
+			if run.Sibs {
+				owners = nil
+				for o := range run.Apks {
+					owners = append(owners, o)
+				}
+			}
+			for _, o := range owners {
+				for _, rp := range run.Apks[o].Repos {
+					if !e.c.Repos[rp].HTTP {
+						continue
+					}
+					p := "/" + gluesigRepoNames[rp] + "/" + run.Apks[o].Arch + "/APKINDEX.tar.gz"
+					if gate.expect[p] == nil {
+						gate.expect[p] = map[int]bool{}
+					}
+					gate.expect[p][j] = true
+				}
+			}
+		}
+		e.rt.mu.Lock()
+		e.rt.gate = gate
+		e.rt.mu.Unlock()
+		var wg sync.WaitGroup
+		panics := make([]any, len(apks))
+		start := func(j int, done chan struct{}) {
+			wg.Add(1)
+			go func() {
+				defer wg.Done()
+				if done != nil {
+					defer close(done)
+				}
+				defer func() { panics[j] = recover() }()
+				outs[j] = resolve(context.WithValue(ctx, gluesigOpKey{}, j), j)
+			}()
+		}
+		leaderDone := make(chan struct{})
+		start(0, leaderDone)
+		select {
+		case <-gate.firstHeld:
+		case <-leaderDone:
+		}
+		for j := 1; j < len(apks); j++ {
+			start(j, nil)
+		}
+		wg.Wait()
+		e.rt.mu.Lock()
+		e.rt.gate = nil
+		e.rt.mu.Unlock()
+		for _, p := range panics {
+			if p != nil {
+				panic(p)
+			}
+		}
+		e.joined += gate.joined
 		return strings.Join(enc, "|"), strings.Join(ops, "|"), outs
 	}
 
@@ -986,7 +1287,9 @@ func (e *gluesigEnv) execRun(k int, run gluesigRun) (apksField, opsField string,
 	case "pl1":
 		var ops []string
 		for j := range run.Archs {
-			bc, err := build.New(ctx, tarfs.New(), append(append([]build.Option{}, opts...), build.WithArch(archs[j]))...)
+			fsys := tarfs.New()
+			gluesigWriteRoot(fsys, run.Archs[j], run.Root)
+			bc, err := build.New(ctx, fsys, append(append([]build.Option{}, opts...), build.WithArch(archs[j]))...)
 			gluesigMust(err)
 			pkgs, _, err := bc.BuildPackageList(ctx)
 			outs = append(outs, one(err, "0="+gluesigRecs(pkgs)))
@@ -1104,6 +1407,17 @@ func (e *gluesigEnv) execRun(k int, run gluesigRun) (apksField, opsField string,
 
 var gluesigLogOnce sync.Once
 
+func gluesigRootDesc(root []gluesigRootKey) string {
+	if len(root) == 0 {
+		return ""
+	}
+	var out []string
+	for _, rk := range root {
+		out = append(out, rk.Dir+"/"+isKeysDesc([]isKeyCfg{rk.Key}))
+	}
+	return " root-also-holds=" + strings.Join(out, ",")
+}
+
 func (gluesigSuite) Run(raw json.RawMessage) []Step {
 	var c gluesigCase
 	if err := json.Unmarshal(raw, &c); err != nil {
@@ -1169,6 +1483,9 @@ func (gluesigSuite) Run(raw json.RawMessage) []Step {
 			if !(run.NewProcess || k == 0) {
 				tagset[fmt.Sprintf("same-process:%c", o.class)] = true
 			}
+			if run.Conc {
+				tagset[fmt.Sprintf("conc:%c", o.class)] = true
+			}
 			for _, m := range o.errs {
 				if o.class == 'L' {
 					tagset["other-error"] = true
@@ -1187,11 +1504,17 @@ func (gluesigSuite) Run(raw json.RawMessage) []Step {
 		d := fmt.Sprintf("run %d: op=%s newprocess=%v offline=%v ignore=%v", k, run.Op, run.NewProcess || k == 0, run.Offline, run.Ignore)
 		if run.Op == "apk" {
 			for _, a := range run.Apks {
-				d += fmt.Sprintf(" apk[%s keys=%s ignore=%v nosig=%q repos=%v]", a.Arch, isKeysDesc(a.Keys), a.Ignore, a.NoSig, a.Repos)
+				d += fmt.Sprintf(" apk[%s keys=%s ignore=%v nosig=%q repos=%v%s]", a.Arch, isKeysDesc(a.Keys), a.Ignore, a.NoSig, a.Repos, gluesigRootDesc(a.Root))
+				for _, rk := range a.Root {
+					tagset["rootkey:"+rk.Dir] = true
+				}
 			}
-			d += fmt.Sprintf(" sibs=%v", run.Sibs)
+			d += fmt.Sprintf(" sibs=%v concurrent=%v", run.Sibs, run.Conc)
 		} else {
-			d += fmt.Sprintf(" archs=%v keys=%s repos=%v", run.Archs, isKeysDesc(run.Keys), run.Repos)
+			d += fmt.Sprintf(" archs=%v keys=%s repos=%v%s", run.Archs, isKeysDesc(run.Keys), run.Repos, gluesigRootDesc(run.Root))
+			for _, rk := range run.Root {
+				tagset["rootkey:"+rk.Dir] = true
+			}
 		}
 		d += " serves " + strings.Join(served, " ") + " -> " + string(cl)
 		for _, o := range outs {
@@ -1203,6 +1526,9 @@ func (gluesigSuite) Run(raw json.RawMessage) []Step {
 			}
 		}
 		desc = append(desc, d)
+	}
+	if e.joined > 0 {
+		tagset["conc:interleaved"] = true
 	}
 	goClasses := strings.Join(classes, "/")
 	line := strings.Join(append(append([]string{"is.glue", goClasses, strings.Join(answers, "/"), fmt.Sprint(len(c.Revs))}, archFields...), runFields...), "\t")
